@@ -480,7 +480,7 @@ class Gen:
                 t = rng.choice(TARGETS)
                 ctor = ("W.AM(%s)" if is_async else "W.M(%s)") % ("True" if self.probes else "")
                 if self.odd and rng.random() < 0.35:
-                    ctor = (rng.choice(["W.ACM(%s)"]) if is_async else rng.choice(["W.SM(%s)", "W.CM(%s)", "W.ES(%s)", "W.DM(%s)", "W.EQ(%s)", "W.EQ(%s)"])) % ("True" if self.probes else "")
+                    ctor = (rng.choice(["W.ACM(%s)"]) if is_async else rng.choice(["W.SM(%s)", "W.SM(%s)", "W.CM(%s)", "W.ES(%s)", "W.DM(%s)", "W.EQ(%s)", "W.EQ(%s)"])) % ("True" if self.probes else "")
                 items.append(f"W.T({t!r}, {ctor})" + (f" as {t}" if t else ""))
             head = ind + ("async with " if is_async else "with ") + ", ".join(items) + ":"
             body = self.block(depth - 1, ind + "    ")
@@ -686,5 +686,32 @@ CORPUS = [
         yield 1
         if W.nn() is not None: return
     yield 2
+"""),
+]
+
+
+# layouts with managers the bytecode analysis cannot handle (C06: purity must hold on the fallback paths too)
+CORPUS_ODD = [
+    _c("gen", """    with W.T(None, W.SM(True)):
+        yield 1
+        for _i in range(2):
+            yield 2
+    yield 3
+"""),
+    _c("coro", """    with W.T('x', W.M(True)) as x, W.T(None, W.SM(True)):
+        await TRAP()
+        async with W.T(None, W.AM(True)):
+            await TRAP()
+    await TRAP()
+"""),
+    _c("gen", """    with W.T(None, W.DM(True)), W.T(None, W.EQ(True)):
+        yield 1
+    with W.T(None, W.ES(True)):
+        yield 2
+"""),
+    _c("agen", """    async with W.T(None, W.ACM(True)):
+        yield 1
+        with W.T(None, W.CM(True)), W.T(None, W.SM(True)):
+            yield 2
 """),
 ]
